@@ -1,6 +1,7 @@
 package main
 
 import (
+	"go/types"
 	"fmt"
 	"strconv"
 	"strings"
@@ -80,6 +81,28 @@ func c18Decoders(c *Ctx) {
 							if g.isBin("<") && g.Args[0].Op == "builtin" && g.Args[0].Sym == "len" && isBufLoad(g.Args[0].Args[0]) && !cd.Taken {
 								if gk, ok := lit(g.Args[1]); ok && gk > k {
 									guarded = true
+								}
+							}
+							// the same facts stated positively: k < len(*b) / k+1 <= len(*b) taken
+							isLen := func(t *Term) bool {
+								return t.Op == "builtin" && t.Sym == "len" && isBufLoad(t.Args[0])
+							}
+							if g.isBin("<") && isLen(g.Args[1]) && cd.Taken {
+								if gk, ok := lit(g.Args[0]); ok && gk >= k {
+									guarded = true
+								}
+							}
+							if g.isBin("<=") && isLen(g.Args[1]) && cd.Taken {
+								if gk, ok := lit(g.Args[0]); ok && gk > k {
+									guarded = true
+								}
+							}
+							// len(*b) != 0 holds ⇒ at least one byte
+							if g.isBin("!=") && k == 0 && cd.Taken {
+								for i := 0; i < 2; i++ {
+									if g.Args[i].isConst("0") && isLen(g.Args[1-i]) {
+										guarded = true
+									}
 								}
 							}
 							// len(*b) == 0 failed ⇒ at least one byte
@@ -231,7 +254,15 @@ func c18Encoders(c *Ctx) {
 					src := v.Args[1]
 					switch {
 					case src.Op == "slice" && src.Args[0].Op == "alloc":
+						// append(*b, x, y, …) / append(*b, make([]byte, k)...): a fresh [k]byte array, sliced whole or [:k]
 						k := int64(1)
+						if al, ok := src.Args[0].V.(*ssa.Alloc); ok {
+							if pt, ok := al.Type().Underlying().(*types.Pointer); ok {
+								if at, ok := pt.Elem().Underlying().(*types.Array); ok {
+									k = at.Len()
+								}
+							}
+						}
 						if hk, ok := lit(src.Args[2]); ok {
 							k = hk
 						}
@@ -526,6 +557,42 @@ func c18Inverse(c *Ctx) {
 					nPut++
 				} else {
 					foundL = "stores " + v.Key()
+				}
+			}
+			if nPut == 0 {
+				// the same 8 bytes appended one by one: element k of the appended array is byte(bits(v) >> 8k)
+				elems := map[string]*Term{}
+				var arr *Term
+				for _, e := range p.Effects {
+					if e.Kind == "store" && e.Addr.Op == "index" && e.Addr.Args[0].Op == "alloc" && e.Addr.Args[1].Op == "const" {
+						elems[e.Addr.Args[0].Key()+"#"+e.Addr.Args[1].Sym] = e.Val
+					}
+					if e.Kind == "store" && e.Addr.isParam(0) && e.Val.Op == "builtin" && e.Val.Sym == "append" && len(e.Val.Args) == 2 && e.Val.Args[1].Op == "slice" && e.Val.Args[1].Args[0].Op == "alloc" {
+						arr = e.Val.Args[1].Args[0]
+					}
+				}
+				if arr != nil {
+					all := true
+					for k := 0; k < 8; k++ {
+						v := elems[arr.Key()+"#"+strconv.Itoa(k)]
+						good := v != nil && v.Op == "conv" && v.Sym == "byte"
+						if good {
+							x := v.Args[0]
+							if k > 0 {
+								good = x.isBin(">>") && x.Args[1].isConst(strconv.Itoa(8*k))
+								if good {
+									x = x.Args[0]
+								}
+							}
+							good = good && x.Op == "call" && x.Sym == "math.Float64bits" && x.Args[0].isParam(1)
+						}
+						if !good {
+							all = false
+						}
+					}
+					if all {
+						nPut = 1
+					}
 				}
 			}
 			if nPut != 1 {
